@@ -30,6 +30,11 @@ package notifier
 //                               x        Broadcast the expiry (connection stays up), wait for the Unlock() call
 //                               t <now>  clock := now, let the request loop iterate
 //                               r <now> <list>  group list refresh at clock now
+//                               rs <now> <c|g> <list>  the same, but the storage request (cluster list / first consumer
+//                                        list) is not taken off App.StorageChannel within the 1 s timeout
+//                               ue <now> clock := now; complete the pending Unlock() with an ERROR
+//                             cases with rs / ue run in a child process each (in parallel): HEAD panics on a failing
+//                             Unlock() -- the death of the child is the outcome PANIC
 //
 // Loop scenarios use the real clock and run in parallel on separate Coordinators; pace cases run afterwards, serially.
 
@@ -39,6 +44,7 @@ import (
 	"errors"
 	"fmt"
 	"os"
+	"os/exec"
 	"sort"
 	"strconv"
 	"strings"
@@ -554,7 +560,7 @@ func vLoadConfig(src string, mods []vModCfg) error {
 	return viper.ReadConfig(&b)
 }
 
-func vCfg(f []string) (res string) {
+func vCfg(f []string, sink func(string)) (res string) {
 	i := 0
 	next := func() string { s := f[i]; i++; return s }
 	nextI := func() int64 {
@@ -593,6 +599,19 @@ func vCfg(f []string) (res string) {
 	}
 	mi := nc.minInterval
 	out := []string{fmt.Sprintf("MI:%d", mi), fmt.Sprintf("NM:%d", len(nc.modules))}
+	// every output token goes to the sink at once: in a child process (see vIsolated) the tokens written before the
+	// process dies are the observation
+	put := func(tok string) {
+		out = append(out, tok)
+		if sink != nil {
+			sink(tok)
+		}
+	}
+	if sink != nil {
+		for _, tok := range out {
+			sink(tok)
+		}
+	}
 	now0 := nextI()
 	ng := int(nextI())
 	type gle struct {
@@ -650,9 +669,21 @@ func vCfg(f []string) (res string) {
 	var stMu sync.Mutex
 	stLists := map[string][]string{}
 	var stServed, stClServed atomic.Int32
+	// stallAll: nothing is taken off App.StorageChannel while set; stallAfterCl: after the next cluster-list reply nothing
+	// is taken for 1.25 s (the first consumer-list request of that refresh runs into its 1 s timeout)
+	var stallAll, stallAfterCl atomic.Int32
 	go func() {
 		for {
+			if stallAll.Load() == 1 {
+				select {
+				case <-stop:
+					return
+				case <-time.After(500 * time.Microsecond):
+				}
+				continue
+			}
 			select {
+			case <-time.After(500 * time.Microsecond):
 			case r := <-nc.App.StorageChannel:
 				stMu.Lock()
 				var reply interface{}
@@ -674,6 +705,9 @@ func vCfg(f []string) (res string) {
 						stServed.Add(1)
 					} else {
 						stClServed.Add(1)
+						if stallAfterCl.CompareAndSwap(1, 0) {
+							time.Sleep(1250 * time.Millisecond)
+						}
 					}
 				}
 			case <-stop:
@@ -811,7 +845,8 @@ func vCfg(f []string) (res string) {
 			}
 			nc.clusterLock.Unlock()
 		} else if !refresh(lists) {
-			return strings.Join(append(out, "INITPANIC"), " ")
+			put("INITPANIC")
+		return strings.Join(out, " ")
 		}
 		nc.clusterLock.RLock()
 		n := 0
@@ -831,12 +866,14 @@ func vCfg(f []string) (res string) {
 		}
 		nc.clusterLock.RUnlock()
 		if n != ng || total != ng {
-			return strings.Join(append(out, fmt.Sprintf("INITGROUPS:%d/%d", n, total)), " ")
+			put(fmt.Sprintf("INITGROUPS:%d/%d", n, total))
+		return strings.Join(out, " ")
 		}
 	}
 
 	if err := nc.Start(); err != nil {
-		return strings.Join(append(out, "STARTERR"), " ")
+		put("STARTERR")
+		return strings.Join(out, " ")
 	}
 	var sentLock, sentUnlock int32
 	waitCall := func(c *atomic.Int32, sent int32, d time.Duration) bool {
@@ -859,7 +896,8 @@ func vCfg(f []string) (res string) {
 		return "-"
 	}
 	if !waitCall(&lock.lockCalls, sentLock, callWait) {
-		return strings.Join(append(out, "NOLOCKCALL"), " ")
+		put("NOLOCKCALL")
+		return strings.Join(out, " ")
 	}
 	// requests that arrive after an event that is not a tick of the script (lock error, expiry): "+<ids>"
 	extras := func() string {
@@ -869,7 +907,8 @@ func vCfg(f []string) (res string) {
 		return ""
 	}
 	for k := 0; k < nev; k++ {
-		switch next() {
+		ev := next()
+		switch ev {
 		case "k":
 			now := nextI()
 			VerifSetClock(now)
@@ -896,7 +935,7 @@ func vCfg(f []string) (res string) {
 			if bad {
 				o = "!" + o
 			}
-			out = append(out, o)
+			put(o)
 		case "e":
 			if lock.unlockCalls.Load() > sentUnlock {
 				lock.unlockRes <- nil
@@ -907,14 +946,14 @@ func vCfg(f []string) (res string) {
 				sentLock++
 				// the loop sleeps 100 ms and calls Lock() again
 				waitCall(&lock.lockCalls, sentLock, callWait)
-				out = append(out, "E"+pendLetter()+extras())
+				put("E"+pendLetter()+extras())
 			} else {
-				out = append(out, "!E"+pendLetter()+extras())
+				put("!E"+pendLetter()+extras())
 			}
 		case "x":
 			nc.App.ZookeeperExpired.Broadcast()
 			waitCall(&lock.unlockCalls, sentUnlock, 100*time.Millisecond*m)
-			out = append(out, "X"+pendLetter()+extras())
+			put("X"+pendLetter()+extras())
 		case "t":
 			now := nextI()
 			if slow {
@@ -926,9 +965,14 @@ func vCfg(f []string) (res string) {
 				hold.Store(0)
 			}
 			time.Sleep(8 * time.Millisecond * m)
-			out = append(out, fmtIDs("T:", take()))
-		case "r":
+			put(fmtIDs("T:", take()))
+		case "r", "rs":
+			stalled := ev == "rs"
 			now := nextI()
+			mode := ""
+			if stalled {
+				mode = next()
+			}
 			n := int(nextI())
 			VerifSetClock(now)
 			lists := map[string][]string{"c0": nil, "c1": nil, "c2": nil}
@@ -940,8 +984,46 @@ func vCfg(f []string) (res string) {
 				draws[name] = r
 			}
 			before := existing()
-			if !refresh(lists) {
-				out = append(out, "PANIC")
+			if stalled {
+				// a refresh whose storage request is not taken off App.StorageChannel within the 1 s of
+				// helpers.TimeoutSendStorageRequest: the cluster-list request (mode c), or the first consumer-list
+				// request after the cluster list was answered (mode g; the other clusters are then answered)
+				if mi <= 0 {
+					put("RS?")
+					continue
+				}
+				stMu.Lock()
+				for c := range stLists {
+					delete(stLists, c)
+				}
+				ncl := 0
+				for c, l := range lists {
+					if len(l) > 0 {
+						stLists[c] = l
+						ncl++
+					}
+				}
+				stMu.Unlock()
+				bServed := stServed.Load()
+				if mode == "c" {
+					stallAll.Store(1)
+					nc.sendClusterRequest() // returns when the 1 s timeout has passed
+					time.Sleep(50 * time.Millisecond)
+					stallAll.Store(0)
+				} else {
+					stallAfterCl.Store(1)
+					nc.sendClusterRequest()
+					deadline := time.Now().Add(time.Duration(1300+1100*ncl) * time.Millisecond)
+					for int(stServed.Load()-bServed) < ncl-1 && time.Now().Before(deadline) {
+						time.Sleep(time.Millisecond)
+					}
+					time.Sleep(1300 * time.Millisecond)
+				}
+				time.Sleep(5 * time.Millisecond)
+				nc.clusterLock.Lock()
+				nc.clusterLock.Unlock() //nolint
+			} else if !refresh(lists) {
+				put("PANIC")
 				return strings.Join(out, " ")
 			}
 			rangeBad := false
@@ -979,13 +1061,26 @@ func vCfg(f []string) (res string) {
 			if extra := take(); len(extra) > 0 {
 				o += fmtIDs("+", extra)
 			}
-			out = append(out, o)
+			put(o)
+		case "ue":
+			// the pending Unlock() fails (what go-zk's Lock.Unlock returns when the ephemeral node went with the
+			// expired session).  The clock is moved first, so that whatever evaluates afterwards has something due.
+			now := nextI()
+			VerifSetClock(now)
+			if waitCall(&lock.unlockCalls, sentUnlock, callWait) {
+				lock.unlockRes <- errors.New("zk: node does not exist")
+				sentUnlock++
+				time.Sleep(180 * time.Millisecond * m) // a loop that goes on sleeps 100 ms first
+				put("UE" + pendLetter() + extras())
+			} else {
+				put("!UE" + pendLetter() + extras())
+			}
 		default:
 			return "BADEVENT"
 		}
 	}
 	if p, _ := fzk.lockPath.Load().(string); p != root+"/notifier" {
-		out = append(out, "BADLOCKPATH:"+p)
+		put("BADLOCKPATH:"+p)
 	}
 	return strings.Join(out, " ")
 }
@@ -1011,6 +1106,43 @@ func TestVerifProbeEvalloop(t *testing.T) {
 		}
 	}
 	res := make([]string, len(lines))
+
+	if os.Getenv("VERIF_CHILD") == "1" {
+		// child mode: one cfg case, tokens written as they are produced (the process may be killed by the panic of
+		// manageEvalLoop; that is an outcome the parent reports)
+		outf, err := os.Create(outPath)
+		if err != nil {
+			t.Fatal(err)
+		}
+		first := true
+		vCfg(strings.Fields(lines[0])[1:], func(tok string) {
+			if !first {
+				outf.WriteString(" ")
+			}
+			first = false
+			outf.WriteString(tok)
+		})
+		outf.WriteString(" END")
+		outf.Close()
+		return
+	}
+	// isolated cfg cases (a failing Unlock(), a stalled storage request) run in child processes, in parallel with
+	// everything else: own virtual clock, and a panic of the loop goroutine ends the child only
+	var isoWg sync.WaitGroup
+	isoSem := make(chan struct{}, 8)
+	for i, l := range lines {
+		f := strings.Fields(l)
+		if f[0] == "cfg" && vIsIsolated(f) {
+			isoWg.Add(1)
+			go func(i int, l string) {
+				defer isoWg.Done()
+				isoSem <- struct{}{}
+				defer func() { <-isoSem }()
+				res[i] = vIsolated(i, l, outPath)
+			}(i, l)
+		}
+	}
+	defer isoWg.Wait()
 
 	// loop scenarios: built serially (viper), run in parallel on separate Coordinators with the real clock
 	VerifSetClock(0)
@@ -1049,12 +1181,15 @@ func TestVerifProbeEvalloop(t *testing.T) {
 		case "pace":
 			res[i] = vPace(f[1:])
 		case "cfg":
-			res[i] = vCfg(f[1:])
+			if !vIsIsolated(f) {
+				res[i] = vCfg(f[1:], nil)
+			}
 		default:
 			t.Fatalf("unknown case kind in %q", l)
 		}
 	}
 
+	isoWg.Wait()
 	outf, err := os.Create(outPath)
 	if err != nil {
 		t.Fatal(err)
@@ -1065,4 +1200,85 @@ func TestVerifProbeEvalloop(t *testing.T) {
 	for _, r := range res {
 		fmt.Fprintln(w, r)
 	}
+}
+
+func vIsIsolated(f []string) bool {
+	for _, x := range f {
+		if x == "ue" || x == "rs" {
+			return true
+		}
+	}
+	return false
+}
+
+// vIsolated runs one cfg case in a child process (this test binary, VERIF_CHILD=1).  The child writes its tokens as it
+// goes; if it dies (HEAD: panic("Unable to release zookeeper lock after session expiration")), the tokens written so
+// far are the observation and the death is reported as PANIC (at a failing Unlock) or CRASH (anywhere else).
+func vIsolated(idx int, line, outPath string) string {
+	exe, err := os.Executable()
+	if err != nil {
+		return "CHILDERR:" + err.Error()
+	}
+	in := fmt.Sprintf("%s.child%d.in", outPath, idx)
+	out := fmt.Sprintf("%s.child%d.out", outPath, idx)
+	defer os.Remove(in)
+	defer os.Remove(out)
+	if err := os.WriteFile(in, []byte(line+"\n"), 0o644); err != nil {
+		return "CHILDERR:" + err.Error()
+	}
+	cmd := exec.Command(exe, "-test.run", "^TestVerifProbeEvalloop$", "-test.count=1", "-test.timeout", "120s")
+	cmd.Env = append(os.Environ(), "VERIF_CHILD=1", "VERIF_CASES="+in, "VERIF_OUT="+out)
+	stderr, _ := cmd.CombinedOutput()
+	b, _ := os.ReadFile(out)
+	toks := strings.Fields(string(b))
+	if len(toks) > 0 && toks[len(toks)-1] == "END" {
+		return strings.Join(toks[:len(toks)-1], " ")
+	}
+	// which event was being processed when the child died: tokens MI NM, then one per event
+	f := strings.Fields(line)
+	evs := vCfgEventKinds(f)
+	k := len(toks) - 2
+	if k >= 0 && k < len(evs) && evs[k] == "ue" && strings.Contains(string(stderr), "panic") {
+		return strings.Join(append(toks, "PANIC"), " ")
+	}
+	msg := "?"
+	for _, ln := range strings.Split(string(stderr), "\n") {
+		if strings.HasPrefix(ln, "panic:") || strings.HasPrefix(ln, "fatal error:") {
+			msg = strings.ReplaceAll(strings.TrimSpace(ln), " ", "_")
+			break
+		}
+	}
+	return strings.Join(append(toks, "CRASH:"+msg), " ")
+}
+
+// vCfgEventKinds lists the event kinds of a cfg case line, in order.
+func vCfgEventKinds(f []string) []string {
+	i := 4
+	nm, _ := strconv.Atoi(f[i])
+	i += 1 + 5*nm
+	i++ // now0
+	ng, _ := strconv.Atoi(f[i])
+	i += 1 + 2*ng
+	nev, _ := strconv.Atoi(f[i])
+	i++
+	var kinds []string
+	for k := 0; k < nev && i < len(f); k++ {
+		ev := f[i]
+		kinds = append(kinds, ev)
+		switch ev {
+		case "k", "t", "ue":
+			i += 2
+		case "e", "x":
+			i++
+		case "r":
+			n, _ := strconv.Atoi(f[i+2])
+			i += 3 + 2*n
+		case "rs":
+			n, _ := strconv.Atoi(f[i+3])
+			i += 4 + 2*n
+		default:
+			return kinds
+		}
+	}
+	return kinds
 }
